@@ -6,6 +6,7 @@ import (
 	"fmt"
 	"log"
 	"math/rand"
+	"sync"
 
 	"github.com/lugu/qiloop/meta/signature"
 	"github.com/lugu/qiloop/type/conversion"
@@ -85,6 +86,12 @@ func (p proxy) Call2(method string, args Params, ret Response) error {
 	return nil
 }
 
+// subscriptionMutex serializes the remote registration and
+// unregistration of signals: a subscriber must not return before the
+// registration it relies on is acknowledged, and an unregistration
+// must not interleave with the registration of the next subscriber.
+var subscriptionMutex sync.Mutex
+
 // SubscribeID returns a channel with the values of a signal or a
 // property.
 func (p proxy) SubscribeID(action uint32) (func(), chan []byte, error) {
@@ -95,26 +102,38 @@ func (p proxy) SubscribeID(action uint32) (func(), chan []byte, error) {
 			return nil, nil, fmt.Errorf("unknown signal: %d", action)
 		}
 	}
+	key := fmt.Sprintf("%d.%d.%d", p.service, p.object, action)
+	keyHandler := key + ".handler"
+
+	subscriptionMutex.Lock()
+	defer subscriptionMutex.Unlock()
+
 	cancel, bytes, err := p.client.Subscribe(p.service, p.object, action)
 	if err != nil {
 		return nil, nil, err
 
 	}
-	subscriptions := p.client.State(fmt.Sprintf("%d.%d.%d", p.service, p.object, action), 1)
+	subscriptions := p.client.State(key, 1)
 	if subscriptions == 1 {
 		handler := rand.Int()
-		p.client.State(fmt.Sprintf("%d.%d.%d.handler", p.service, p.object, action), handler)
+		p.client.State(keyHandler, handler)
 		obj := proxyObject{p}
 		_, err := obj.RegisterEvent(p.object, action, uint64(handler))
 		if err != nil {
+			// roll back: the next subscriber must register again.
+			p.client.State(keyHandler, -handler)
+			p.client.State(key, -1)
+			cancel()
 			return nil, nil, err
 		}
 	}
 	return func() {
-		subscriptions := p.client.State(fmt.Sprintf("%d.%d.%d", p.service, p.object, action), -1)
+		subscriptionMutex.Lock()
+		defer subscriptionMutex.Unlock()
+		subscriptions := p.client.State(key, -1)
 		if subscriptions == 0 {
-			handler := p.client.State(fmt.Sprintf("%d.%d.%d.handler", p.service, p.object, action), 0)
-			p.client.State(fmt.Sprintf("%d.%d.%d.handler", p.service, p.object, action), -handler)
+			handler := p.client.State(keyHandler, 0)
+			p.client.State(keyHandler, -handler)
 			obj := proxyObject{p}
 			err := obj.UnregisterEvent(p.object, action, uint64(handler))
 			if err != nil {
